@@ -70,3 +70,46 @@ def all_sends(prog, crates=None):
             if is_send(c):
                 out.append(SendSite(prog, c))
     return out
+
+
+def exit_code_inspected(X, s):
+    """A send returns Ok(Response) even when the callee aborted: the abort is visible only in Response.exit_code.
+    True when the Result of this send is handed to extract_send_result (turns a non-zero exit code into Err), or
+    when every success return of the sender after the send lies behind the true arm of `exit_code.is_success()` taken on this
+    send's response."""
+    f = s.c.fn
+    fate, via = result_via(f, s.c)
+    if any(v.endswith('::extract_send_result') for v in via):
+        return 'extract_send_result'
+    from rules import m_pred
+    cands = X.find_conds(f, m_pred('ExitCode::is_success', [], True))
+    for (c, arm) in cands:
+        if arm not in c.arms:
+            continue
+        if s.c.target is None or c.bb not in f.reach([s.c.target]):
+            continue
+        if not f.ok_returns_from([s.c.target], removed=[X.edge(c, arm)]):
+            return 'is_success'
+    return None
+
+
+def exit_code_rule(X, rep, sends, tolerated, rule='K8'):
+    """one obligation per send site in `sends`: the callee's exit code is inspected (see exit_code_inspected);
+    `tolerated`: {(fn id, method atom or None): reason} - frozen sites that interpret the raw response themselves"""
+    n = 0
+    for s in sends:
+        f = s.c.fn
+        why = None
+        for (fid, meth), w in tolerated.items():
+            if f.id == fid and (meth is None or has_atom(s.method, meth)):
+                why = w
+        key = '%s@%s' % (f.id.split('::', 1)[1] if '::' in f.id else f.id, ','.join(x for x in pretty(s.method) if x.startswith('K:')) or 'dynamic')
+        n += 1
+        if why is not None:
+            rep.need(rule, 'send-exit-code-raw:' + key, True, 'frozen site that interprets the raw response itself (%s)' % why, s.c.where)
+            continue
+        how = exit_code_inspected(X, s)
+        rep.need(rule, 'send-exit-code-inspected:' + key, how is not None,
+                 'a send returns Ok(Response) when the callee aborts; the response must go through extract_send_result or an is_success() check before the sender can succeed (%s)' % (how or 'neither found'),
+                 s.c.where, {'rule': rule, 'fn': f.id, 'method': pretty(s.method), 'how': how})
+    return n
